@@ -17,20 +17,20 @@ def userCtor (ce : Ops.CtorEnv) (tag : String) : Option (Ctor Float) :=
   else if tag == "u:oneway3" then some (Ops.plain ce "u:oneway3" false Ops.addoneGamut)
   else none
 
-def userSem (node : Node Float) (dir : Dir) (data : List (Coor Float)) : Option (List (Coor Float) × Nat) :=
-  if node.tag == S "u:add2" then
+def userSem (tag : Str) (dir : Dir) (data : List (Coor Float)) : Option (List (Coor Float) × Nat) :=
+  if tag == S "u:add2" then
     some (data.map (fun c => match dir with
       | .fwd => { c with c0 := c.c0 + 2.0 } | .inv => { c with c0 := c.c0 - 2.0 }), data.length)
-  else if node.tag == S "u:oneway3" then
+  else if tag == S "u:oneway3" then
     match dir with
     | .fwd => some (data.map (fun c => { c with c0 := c.c0 + 3.0 }), data.length)
     | .inv => some (data, 0)
   else none
 
-def sem : LeafSem Float := fun node dir data =>
-  match userSem node dir data with
+def sem : LeafSem Float := fun tag params dir data =>
+  match userSem tag dir data with
   | some r => r
-  | none => Registry.sem Float node dir data
+  | none => Registry.sem Float tag params dir data
 
 def ellpsKnown (name : Str) : Bool :=
   Gen.ellipsoidNames.contains (String.ofList name) ||
